@@ -88,8 +88,10 @@ def run_image(c):
         img = -img
     mask = None
     if c["mask"]:
+        # a masked detector-edge band: whole leading rows and columns (far from the source)
         mask = np.zeros((N, N), bool)
         mask[:3, :] = True
+        mask[:, :5] = True
     out = {"oracle": []}
     prior = autoprior(img, c["profile"], mask=mask, sky_type=c["sky"])
     want = sorted(PP[c["profile"]] + base_sky_params[c["sky"]])
@@ -126,7 +128,7 @@ def run_image(c):
             if not np.isfinite(imr).all():
                 out["oracle"].append("a prior draw renders to a non-finite image: %s" % {k: float(v) for k, v in d.items()})
                 break
-    if c["snr"] >= 100 and not c.get("negative") and not c["mask"]:
+    if c["snr"] >= 100 and not c.get("negative"):
         tx = prior.dist_dict["xc"].transforms[0].loc
         ty = prior.dist_dict["yc"].transforms[0].loc
         if abs(float(tx) - p["xc"]) > 0.25 or abs(float(ty) - p["yc"]) > 0.25:
